@@ -58,6 +58,9 @@ pub enum Entry6 {
     VecTryReserveExact,
     VecResize,
     VecExtendSlicesCopy,
+    /// splice into the middle of a vector with a replacement iterator whose size_hint lower bound
+    /// is `count` (it yields three items): the hint is an element count that must be refused
+    VecSpliceHint,
     StrWithCapacity,
     StrReserve,
     StrReserveExact,
@@ -295,6 +298,46 @@ fn vec_entry<T: Copy + Default + 'static>(b: &'static Bump, s: &W6Script) -> Got
             let r = call6(0, || v.resize(n, T::default())).map(Some);
             conv_v(r, &v)
         }
+        Entry6::VecSpliceHint => {
+            struct Hinted<T> {
+                left: usize,
+                hint: usize,
+                _p: std::marker::PhantomData<T>,
+            }
+            impl<T: Default> Iterator for Hinted<T> {
+                type Item = T;
+                fn next(&mut self) -> Option<T> {
+                    if self.left == 0 {
+                        None
+                    } else {
+                        self.left -= 1;
+                        Some(T::default())
+                    }
+                }
+                fn size_hint(&self) -> (usize, Option<usize>) {
+                    (self.hint, None)
+                }
+            }
+            let _ = call6(0, || {
+                for _ in 0..5 {
+                    v.push(T::default());
+                }
+            });
+            if v.len() < 5 {
+                // the pre-state could not be built (limit / machine size): nothing to judge
+                std::mem::forget(v);
+                return Got::Err;
+            }
+            let r = call6(0, || {
+                let sp = v.splice(1..2, Hinted::<T> { left: 3, hint: n, _p: std::marker::PhantomData });
+                drop(sp);
+            })
+            .map(Some);
+            if r.is_ok() && v.len() > v.capacity() {
+                return Got::Panic(PanicClass::Other, format!("CAPACITY-SHORT after splice the vector claims {} elements in a buffer of {}", v.len(), v.capacity()));
+            }
+            conv_v(r, &v)
+        }
         Entry6::VecExtendSlicesCopy => {
             // k slices whose lengths sum to `count` (possibly overflowing when zero-sized)
             if esz != 0 && n.checked_mul(esz).map(|b| b > (8 << 20)).unwrap_or(true) {
@@ -428,7 +471,8 @@ fn judge(s: &W6Script, got: Got, esz: usize, n: usize, ck: &mut Ck, stats: &mut 
     match got {
         Got::Ok { addr, bytes } => {
             stats.hit("w6_ok");
-            if impossible {
+            // a size_hint is advice, not a request: an implementation may ignore an absurd hint
+            if impossible && s.entry != Entry6::VecSpliceHint {
                 ck.violate(
                     "C19",
                     "impossible-size-accepted",
@@ -491,7 +535,14 @@ pub fn exec_w6(s: &W6Script) -> WReport {
     stats.steps += 1;
     let is_vec = matches!(
         s.entry,
-        Entry6::VecWithCapacity | Entry6::VecReserve | Entry6::VecReserveExact | Entry6::VecTryReserve | Entry6::VecTryReserveExact | Entry6::VecResize | Entry6::VecExtendSlicesCopy
+        Entry6::VecWithCapacity
+            | Entry6::VecReserve
+            | Entry6::VecReserveExact
+            | Entry6::VecTryReserve
+            | Entry6::VecTryReserveExact
+            | Entry6::VecResize
+            | Entry6::VecExtendSlicesCopy
+            | Entry6::VecSpliceHint
     );
     let is_str = matches!(s.entry, Entry6::StrWithCapacity | Entry6::StrReserve | Entry6::StrReserveExact);
     if is_vec || is_str {
@@ -617,6 +668,7 @@ pub fn gen_w6(seed: u64) -> W6Script {
         Entry6::VecTryReserveExact,
         Entry6::VecResize,
         Entry6::VecExtendSlicesCopy,
+        Entry6::VecSpliceHint,
         Entry6::StrWithCapacity,
         Entry6::StrReserve,
         Entry6::StrReserveExact,
@@ -691,6 +743,9 @@ pub enum W7Script {
         via: u8,
     },
     StrPromise { n: usize, via_reserve: bool, pre: usize },
+    /// fallible initialisers that fail again and again while nothing is stored: the arena must
+    /// not keep asking the global allocator (every failed value is rewound)
+    FailingInits { min_align: usize, ctor_cap: usize, n: usize, big: bool, try_: bool, successes_every: usize },
     StrGrowth { n: usize },
 }
 
@@ -778,6 +833,56 @@ fn growth<const M: usize>(ctor_cap: usize, reqs: &[(usize, usize)], k: usize, vi
     let _ = simalloc::arena_call(0, move || drop(b));
 }
 
+fn failing_inits<const M: usize>(ctor_cap: usize, n: usize, big: bool, try_: bool, successes_every: usize, viol: &mut Vec<Violation>, stats: &mut Stats) {
+    let b = match simalloc::arena_call(0, || if ctor_cap == 0 { Bump::<M>::with_min_align() } else { Bump::<M>::with_min_align_and_capacity(ctor_cap) }) {
+        Ok(b) => b,
+        Err(_) => return,
+    };
+    let mut stored = 0usize;
+    let slot = if big { 3008 } else { 608 };
+    for i in 0..n {
+        let r = simalloc::arena_call(0, || {
+            if big {
+                if try_ {
+                    b.try_alloc_try_with(|| Err::<[u64; 375], u32>(7)).is_err()
+                } else {
+                    b.alloc_try_with(|| Err::<[u64; 375], u32>(7)).is_err()
+                }
+            } else if try_ {
+                b.try_alloc_try_with(|| Err::<[u64; 75], u32>(7)).is_err()
+            } else {
+                b.alloc_try_with(|| Err::<[u64; 75], u32>(7)).is_err()
+            }
+        });
+        if !matches!(r, Ok(true)) {
+            break;
+        }
+        if successes_every > 0 && i % successes_every == 0 {
+            let _ = simalloc::arena_call(0, || {
+                b.alloc(i as u64);
+            });
+            stored += 8 + M;
+        }
+    }
+    let mut ev = Vec::new();
+    simalloc::take_events(&mut ev);
+    let rq = requests(&ev);
+    stats.hit("w7_failing_inits");
+    // bytes that ever had to be resident at once: one slot plus what was kept
+    let tprime = slot + 2 * M + stored;
+    let bound = (((4 * tprime + 8192) as f64) / 448.0).log2() + 1.0 + if ctor_cap > 0 { 1.0 } else { 0.0 };
+    if rq.len() as f64 > bound.ceil() {
+        ck7(
+            viol,
+            "failing-initialisers",
+            "too-many-allocator-requests",
+            "failing-initialisers",
+            format!("{} allocator requests while {} failed initialisers left nothing behind and {} bytes were stored (bound {:.1}); sizes {:?}", rq.len(), n, stored, bound, rq.iter().map(|r| r.0).take(10).collect::<Vec<_>>()),
+        );
+    }
+    let _ = simalloc::arena_call(0, move || drop(b));
+}
+
 fn cap_exact<const M: usize>(cap: usize, parts: &[usize], viol: &mut Vec<Violation>, stats: &mut Stats) {
     let b = match simalloc::arena_call(0, || Bump::<M>::with_min_align_and_capacity(cap)) {
         Ok(b) => b,
@@ -843,6 +948,18 @@ fn vec_promise<T: Copy + Default + 'static>(bump: &'static Bump, n: usize, via_r
             Err(_) => return,
         }
     };
+    // a reservation the allocation limit refuses must not count as reserved
+    {
+        let cap0 = v.capacity();
+        bump.set_allocation_limit(Some(bump.allocated_bytes()));
+        let refused = b_call(|| v.try_reserve(v.capacity() + 100_000).is_err());
+        bump.set_allocation_limit(None);
+        if refused == Ok(true) && esz > 0 && v.capacity() != cap0 {
+            ck7(viol, "vec", "refused-reservation-counted-as-capacity", "", format!("capacity {} -> {} after try_reserve returned Err", cap0, v.capacity()));
+            std::mem::forget(v);
+            return;
+        }
+    }
     let start = v.len();
     if v.capacity() < start + n {
         ck7(viol, "vec", "reserved-capacity-short", "", format!("len {} + {} > capacity {}", start, n, v.capacity()));
@@ -943,6 +1060,13 @@ pub fn exec_w7(s: &W7Script, k: usize) -> WReport {
             8 => cap_exact::<8>(*cap, parts, &mut viol, &mut stats),
             _ => cap_exact::<16>(*cap, parts, &mut viol, &mut stats),
         },
+        W7Script::FailingInits { min_align, ctor_cap, n, big, try_, successes_every } => match min_align {
+            1 => failing_inits::<1>(*ctor_cap, *n, *big, *try_, *successes_every, &mut viol, &mut stats),
+            2 => failing_inits::<2>(*ctor_cap, *n, *big, *try_, *successes_every, &mut viol, &mut stats),
+            4 => failing_inits::<4>(*ctor_cap, *n, *big, *try_, *successes_every, &mut viol, &mut stats),
+            8 => failing_inits::<8>(*ctor_cap, *n, *big, *try_, *successes_every, &mut viol, &mut stats),
+            _ => failing_inits::<16>(*ctor_cap, *n, *big, *try_, *successes_every, &mut viol, &mut stats),
+        },
         W7Script::Growth { min_align, ctor_cap, reqs, .. } => match min_align {
             1 => growth::<1>(*ctor_cap, reqs, k, &mut viol, &mut stats),
             2 => growth::<2>(*ctor_cap, reqs, k, &mut viol, &mut stats),
@@ -1040,6 +1164,16 @@ pub fn exec_w7(s: &W7Script, k: usize) -> WReport {
 pub fn gen_w7(seed: u64) -> W7Script {
     let mut r = crate::rng::Rng::new(seed).sub(7);
     let min_align = 1usize << r.below(5);
+    if r.chance(1, 10) {
+        return W7Script::FailingInits {
+            min_align,
+            ctor_cap: *r.pick(&[0usize, 0, 100, 1000, 4000]),
+            n: 2 + r.usize_below(30),
+            big: r.chance(1, 2),
+            try_: r.chance(1, 2),
+            successes_every: *r.pick(&[0usize, 0, 1, 3, 7]),
+        };
+    }
     match r.below(10) {
         0 | 1 => {
             let cap = match r.below(5) {
